@@ -80,7 +80,24 @@ class SimFileIO(_real_io.FileIO):
 
     def write(self, b):  # noqa: D102
         sim = CURRENT
-        if sim is None or not sim.active or sim.in_wrapped_write:
+        if sim is not None and sim.active and sim.in_wrapped_write:
+            # the library writes this block with a RAW unbuffered write: a disk that fills up makes such a
+            # write return a short count (no exception); only the next write fails with ENOSPC
+            sim.raw_writes_in_call += 1
+            f = sim.pending_w3
+            if f is not None and not f.get("_done"):
+                mv = memoryview(b)
+                j = max(0, min(int(f.get("arg", 0)), len(mv)))
+                n = super().write(mv[:j]) if j else 0
+                sim.fire(f)
+                sim.enospc = True
+                sim.short_raw_write = True
+                sim.ctx.log("SHORT-raw-write", sim.ctx.rel(self.name), len(mv), n)
+                return n
+            if sim.enospc:
+                raise OSError(errno.ENOSPC, "simulated ENOSPC (sticky)")
+            return super().write(b)
+        if sim is None or not sim.active:
             return super().write(b)
         # a raw write that did not come through FileWriter.write/cwrite
         sim.ctx.log("rawwrite", sim.ctx.rel(self.name), len(memoryview(b)))
@@ -123,6 +140,9 @@ class SimDisk:
         self.enospc = False  # sticky after W3 until free_space()
         self.write_hook = None  # callable(kind, writer, payload, size_before, size_after, append_only)
         self.crash_hook = None  # callable(): snapshot the disk at the crash instant
+        self.pending_w3 = None  # a W3 fault addressed to the write call in progress (raw-write path)
+        self.raw_writes_in_call = 0
+        self.short_raw_write = False
         self.fine_grained = False  # observe the file at every C-call boundary inside a write call (C20 golden run)
         self._saved = None
 
@@ -203,6 +223,9 @@ class SimDisk:
             self.ctx.log(kind, name, "ENOSPC-sticky")
             raise OSError(errno.ENOSPC, "simulated ENOSPC (sticky)")
         self.in_wrapped_write = True
+        self.raw_writes_in_call = 0
+        self.short_raw_write = False
+        self.pending_w3 = f if (f is not None and f["kind"] == "W3" and kind == "cwrite") else None
         inflight = []  # (size, bytes beyond size_before) seen at C-call boundaries INSIDE the write call
         if self.fine_grained:
             import sys
@@ -228,7 +251,14 @@ class SimDisk:
 
                 sys.setprofile(None)
             self.in_wrapped_write = False
+            self.pending_w3 = None
         size_after = os.fstat(fd).st_size
+        if self.short_raw_write:
+            # the fault was delivered the way a raw write reports it (short count): nothing more to emulate
+            self.ctx.log(kind, name, size_before, size_after - size_before, "short-raw")
+            if self.write_hook is not None:
+                self.write_hook(kind, writer, payload, size_before, size_after, True)
+            return None
         if inflight:
             final_tail = os.pread(fd, max(0, size_after - size_before), size_before)
             for st, tail in inflight:
